@@ -7,6 +7,7 @@ import (
 	"os"
 	"reflect"
 	"runtime"
+	"runtime/debug"
 	"strings"
 	"testing"
 
@@ -23,6 +24,12 @@ func TestMain(m *testing.M) {
 	logrus.SetOutput(io.Discard)
 	logrus.SetLevel(logrus.PanicLevel)
 	stdlog.SetOutput(io.Discard)
+	// the library ends the process through log.Fatalf in places (a failed write on the stream): say so on the way
+	// out, with the stack, so that the driver can tell a process the library has terminated from any other exit
+	logrus.StandardLogger().ExitFunc = func(code int) {
+		fmt.Fprintf(os.Stderr, "LIBRARY-FATAL: the library called log.Fatal (exit code %d)\n%s\n", code, debug.Stack())
+		os.Exit(97)
+	}
 	os.Exit(m.Run())
 }
 
